@@ -340,7 +340,8 @@ func (m *Mux) serveHTTP(w http.ResponseWriter, r *http.Request) error {
 	if err != nil {
 		return err
 	}
-	params = append(params, queryParams...)
+	// Path params are applied last: they take precedence over query params.
+	params = append(queryParams, params...)
 
 	hd, err := s.pickMethodHandler(method.name)
 	if err != nil {
